@@ -13,6 +13,7 @@ use crate::worlds::store::StoreWorld;
 use crate::worlds::codec::CodecWorld;
 use crate::worlds::chan::ChanWorld;
 use crate::worlds::recon::ReconWorld;
+use crate::worlds::socket::SocketWorld;
 use crate::worlds::links::LinksWorld;
 use crate::worlds::uplinks::UplinksWorld;
 use crate::worlds::queues::QueuesWorld;
@@ -23,7 +24,7 @@ fn agent(focus: &'static str, name: &'static str) -> Arc<dyn World> {
 }
 
 pub fn world_names() -> Vec<&'static str> {
-    vec!["agent-c01", "agent-c02", "agent-c03", "agent-c04", "agent-c05", "agent-c14", "agent-c04f", "agent-c20", "agent-mix", "dlrt-value", "dlrt-map", "dltask-value", "dltask-map", "hosted-value", "hosted-map", "vote", "store-mem", "store-rocks", "codec", "chan", "recon", "handlers", "links", "uplinks", "queues"]
+    vec!["agent-c01", "agent-c02", "agent-c03", "agent-c04", "agent-c05", "agent-c14", "agent-c04f", "agent-c20", "agent-mix", "dlrt-value", "dlrt-map", "dltask-value", "dltask-map", "hosted-value", "hosted-map", "vote", "store-mem", "store-rocks", "codec", "chan", "recon", "handlers", "links", "uplinks", "queues", "socket"]
 }
 
 pub fn world_by_name(name: &str) -> Option<Arc<dyn World>> {
@@ -47,6 +48,7 @@ pub fn world_by_name(name: &str) -> Option<Arc<dyn World>> {
         "codec" => Arc::new(CodecWorld),
         "chan" => Arc::new(ChanWorld),
         "recon" => Arc::new(ReconWorld),
+        "socket" => Arc::new(SocketWorld),
         "links" => Arc::new(LinksWorld),
         "uplinks" => Arc::new(UplinksWorld),
         "queues" => Arc::new(QueuesWorld),
@@ -98,6 +100,18 @@ const HANDLERS_ASSUMPTIONS: &[&str] = &[
     "the agent + runtime future is polled as one task; remote peers are harness code speaking the product's codecs over the product's byte channels; a clean batch is evidence for the explored seeds, not a proof",
 ];
 
+const SOCKET_ASSUMPTIONS: &[&str] = &[
+    "each RemoteTask is polled as one task (as the server does with tokio::spawn); interleavings finer than one poll are approximated by forced yields after k byte-channel operations (k drawn per run) and by short reads / writes of the byte pipe",
+    "the web socket handshake is skipped (ratchet WebSocket::from_upgraded, no extension); the byte pipe, the agents, the downlinks, the FindNode resolver and (one-sided topologies) the web socket peer are harness code speaking the product's codecs",
+    "node and lane are compared exactly; bodies exactly except for blanks between header and body (skipped by the header peeler) and an empty unlinked body being the same as none (indistinguishable on a byte channel)",
+    "what must arrive: envelopes written after the addressee's attachment completed, while the socket is up and the addressee stays attached; after a cut / bad frame / detach only order, no duplication and no gaps are demanded; for agents that come and go only order and no duplication",
+    "an agent that stopped and was resolved again is a new source (new channel): only the order within one instance is demanded; the socket task interleaves the old channel's remaining envelopes with the new channel's (observed, not judged)",
+    "one-sided topologies: the scripted peer's own writes never block (its direction of the pipe is unbounded), because ratchet's split receiver needs the shared writer to answer a ping / note a pong and would stop reading behind a blocked writer; the direction written by the real task stays bounded with short writes",
+    "liveness of attachment is judged too: with the socket up and the task alive a downlink that asked to be attached must be told so (the product's clients only start reading after that)",
+    "raw socket bytes are never recorded or compared (the client role masks frames with keys outside the simulator's control); only decoded frames and lengths",
+    "a clean batch is evidence for the explored seeds, not a proof",
+];
+
 pub fn spec_for(property: &str) -> Option<CheckSpec> {
     let a = || AGENT_ASSUMPTIONS.iter().map(|s| s.to_string()).collect::<Vec<_>>();
     Some(match property {
@@ -146,6 +160,12 @@ pub fn spec_for(property: &str) -> Option<CheckSpec> {
                 "an infinite loop inside a single decode() call would hang the harness instead of being reported (only non-termination across polls is bounded)".to_string(),
                 "a clean batch is evidence for the explored seeds, not a proof".to_string(),
             ],
+        },
+        "C11" => CheckSpec {
+            property: "C11",
+            level: "exploration",
+            parts: vec![part("socket", 2000, 100_000)],
+            assumptions: SOCKET_ASSUMPTIONS.iter().map(|s| s.to_string()).collect(),
         },
         "C12" => CheckSpec { property: "C12", level: "exploration", parts: vec![part("chan", 75_000, 7_500_000)], assumptions: CHAN_ASSUMPTIONS.iter().map(|s| s.to_string()).collect() },
         "C13" => CheckSpec {
